@@ -1,0 +1,30 @@
+//go:build verif
+
+package server
+
+// Accessors for the C11 (work-connection pool) correspondence harness.  Compiled only with
+// the build tag verif.
+
+// VerifC11Control returns the session currently mapped to runID.
+func (svr *Service) VerifC11Control(runID string) *Control {
+	ctl, _ := svr.ctlManager.GetByID(runID)
+	return ctl
+}
+
+// VerifC11Mapped reports whether ctlManager still maps runID to exactly ctl.
+func (svr *Service) VerifC11Mapped(runID string, ctl *Control) bool {
+	c, ok := svr.ctlManager.GetByID(runID)
+	return ok && c == ctl
+}
+
+// VerifC11PoolLen is len(ctl.workConnCh): the number of pooled work connections.
+func (ctl *Control) VerifC11PoolLen() int { return len(ctl.workConnCh) }
+
+// VerifC11PoolCap is cap(ctl.workConnCh).
+func (ctl *Control) VerifC11PoolCap() int { return cap(ctl.workConnCh) }
+
+// VerifC11PoolCount is ctl.poolCount (after the clamp of NewControl).
+func (ctl *Control) VerifC11PoolCount() int { return ctl.poolCount }
+
+// VerifC11Done is closed when the session's teardown has finished.
+func (ctl *Control) VerifC11Done() <-chan struct{} { return ctl.doneCh }
